@@ -7,5 +7,5 @@ CONSTANTS
   CountVals = {0, 0, 0, 1, 2, 7}
   Modes = {"exp", "explicit"}
   SimPick = 3
-INVARIANTS BucketsMatch BucketsMatchNoScaleDown TotalPreserved WellFormed EmitDone
+INVARIANTS BucketsMatch TotalPreserved WellFormed EmitDone
 CHECK_DEADLOCK FALSE
